@@ -626,7 +626,7 @@ def compare(case, obs, answers):
         if len(calls) != 1:
             return 'model: to_file called; implementation: rc=%r raised=%r, no to_file call' % (obs['rc'], obs['raised_full'])
         c = calls[0]
-        wname = {'default': None, 'minify': 'LuaMinifyTokenWriter', 'format-tuple': 'tuple'}[writer]
+        wname = {'default': None, 'minify': 'LuaMinifyTokenWriter', 'format': 'LuaFormatterWriter', 'format-tuple': 'tuple'}[writer]
         got = _cart_str(c['ids'], c['label'], c['version'])
         if 'C.' + cart != got or c['writer'] != wname or c['filename'] != case['out']:
             return 'model writes cart %s with writer %s to %s; implementation passed %s writer %s to %s' % (
